@@ -23,6 +23,10 @@ def run(ctx: Ctx, chk) -> None:
     chk.run_rule(who_marker, ctx)
 
 
+def _NOT_HANDLER(h: FuncInfo) -> bool:
+    return not h.name.startswith("handle_")
+
+
 def _wrapper(ctx: Ctx) -> FuncInfo:
     deco = ctx.func(WRAPPER)
     return ctx.I.wrapper_of(deco)
@@ -39,7 +43,8 @@ def episode1(ctx: Ctx, chk) -> None:
     rule = "EPISODE-1"
     chk.rule(rule, "in the missing-node/child wrapper: the request is Message(In.node_id, 255, internal, I_PRESENTATION, ''); it is sent unbuffered only if its (node, child, type) key is not in internal_messages; the marker is recorded (buffered send of the same message) only after that send completed normally; the original error is re-raised")
     I = ctx.I
-    w = _wrapper(ctx)
+    # the request logic may be extracted into a helper: analyse the wrapper with such helpers written out
+    w = ctx.inl(_wrapper(ctx), _NOT_HANDLER)
     g = CFG(w.node)
     cn = Canon(I, w)
     handlers = [n for n in ctx.own_nodes(w) if isinstance(n, ast.ExceptHandler)]
